@@ -23,8 +23,8 @@ def run(tier, seed, update_lock=False):
     R.prove(u)
     R.canary_check(u)
     # channel-capacity normalisation (clause of the statement): the real function and its validation helper under contract,
-    # for vectors of state counts and for one integer count per side
-    for form in ('array', 'scalar'):
+    # for vectors of state counts, one integer count per side, and the two mixed forms
+    for form in ('array', 'scalar', 'int-x', 'int-y'):
         uc = Unit('channel-capacity[%s]' % form, channelcap.registry(form), mutants=MUT_CC if form == 'array' else MUT_CC[2:3], budget=20)
         R.prove(uc)
         R.canary_check(uc)
